@@ -487,7 +487,12 @@ def main(tier, seed, replay=None):
     cl = ["fail"] + [str(c) for c in list(range(0, 40)) + [79, 80, 81, 120, 255, 256, 1000, 32767, 32768, 65535]]
     if tier == "thorough":
         cl += [str(c) for c in range(40, 2000)]
-    impl_c, model_c, bad_c = differential(run, "terminal::get_cols / the width print_progress uses", har, drv, "cols", "cols", cl)
+    impl_c = run_lines([har, "cols"], cl)
+    model_c = run_lines([drv, "cols"], cl)
+    bad_c = [i for i, (a, b) in enumerate(zip(impl_c, model_c)) if a != b and a != "nopty"]      # (no pty to be had: nothing to compare)
+    for i in bad_c[:5]:
+        run.tie("correspondence terminal::get_cols / the width print_progress uses", {"case": cl[i], "implementation": impl_c[i][:200], "model": model_c[i][:200]})
+    stats["terminal_width_without_pty"] = sum(1 for a in impl_c if a == "nopty")
     for l, r in zip(cl, impl_c):
         if r == "nopty":
             continue
